@@ -91,3 +91,13 @@ def _c06_init_abs(v, rec):
     *initial* absorbing state."""
     f = v.get("facts", {})
     return v["clause"] == "inferred-state_list!=closure" and bool(f.get("extra_only_from_initial_absorbing"))
+
+
+@mechanism("C16-discounted-near-singular-rank-test")
+def _c16_rank(v, rec):
+    """gamma < 1, converged=True, and the reported gain is clearly non-zero although a discounted
+    problem has gain 0: independent_row_indices() judged an independent row of (gamma*P - I) dependent
+    (np.isclose(det, 0) with an absolute tolerance), so the linear system was under-determined."""
+    f = v.get("facts", {})
+    return (f.get("gamma", 1.0) < 1.0 and f.get("max_abs_reported_gain", 0.0) > 1e-6
+            and v["clause"] in ("state_value!=optimal-discounted-value", "returned-policy-not-value-optimal"))
